@@ -6,8 +6,8 @@
     `packOrder`   = the order of the `propertyWrite*` calls in `Properties.Pack`
     `willProps`   = the `case`s of `UnpackWillProperties` / the calls of `PackWillProperties`
 
-  `propKinds` reflects the F25 fix: 0x16 (Authentication Data) is read with `propertyReadBinary`
-  (the unchanged tree uses `propertyReadUTF8String`, see `Orig.propKinds`).
+  `propKinds` reflects the F25 fix (de2e2ba): 0x16 (Authentication Data) is read with `propertyReadBinary`
+  (before the fix: `propertyReadUTF8String`, see `Orig.propKinds`).
 -/
 namespace GmqttVerif.Codec
 
